@@ -99,11 +99,19 @@ def coerce_float(maybe_float: _ScalarValue) -> float:
         raise ValueError("Float cannot represent non numeric value: None")
 
     try:
-        return float(maybe_float)
+        value = float(maybe_float)
     except ValueError:
         raise ValueError(
             "Float cannot represent non numeric value: %s" % maybe_float
         )
+
+    # NaN and +/-Infinity are not valid GraphQL (nor JSON) numbers.
+    if value != value or value in (float("inf"), float("-inf")):
+        raise ValueError(
+            "Float cannot represent non numeric value: %s" % maybe_float
+        )
+
+    return value
 
 
 _coerce_int_node = _typed_coerce(coerce_int, _ast.IntValue)
